@@ -172,12 +172,14 @@ class Opaque(object):
 PURE_BUILTINS = {
     'range': range, 'len': len, 'dict': dict, 'list': list, 'tuple': tuple, 'sorted': sorted, 'set': set,
     'int': int, 'str': str, 'min': min, 'max': max, 'zip': zip, 'enumerate': enumerate, 'map': None, 'filter': None,
+    'all': all, 'any': any, 'divmod': divmod, 'bin': bin, 'frozenset': frozenset,
     'True': True, 'False': False, 'None': None, 'sum': sum, 'abs': abs, 'pow': pow, 'hex': hex, 'bool': bool, 'ord': ord, 'chr': chr, 'type': type, 'isinstance': isinstance,
 }
 SAFE_METHODS = {
     list: {'index', 'count', 'copy'}, tuple: {'index', 'count'},
     dict: {'keys', 'values', 'items', 'get', 'copy'},
-    str: {'startswith', 'endswith', 'lower', 'upper', 'join', 'split', 'format', 'strip', 'replace', 'index', 'count', 'find'},
+    str: {'startswith', 'endswith', 'lower', 'upper', 'join', 'split', 'format', 'strip', 'replace', 'index', 'count', 'find', 'ljust', 'rjust', 'center', 'zfill', 'lstrip', 'rstrip',
+          'rfind', 'rsplit', 'partition', 'rpartition', 'isdigit', 'isalpha', 'isalnum', 'title', 'capitalize', 'splitlines', 'expandtabs'},
     set: {'union', 'copy', 'intersection', 'difference', 'issubset'}, slice: {'indices'},
 }
 MUTATORS = {list: {'append', 'extend', 'insert', 'reverse', 'sort', 'pop', 'remove'},
@@ -524,6 +526,8 @@ class Evaluator(object):
                     raise PyRaise('constructor %s failed: %r' % (f.id, e), type(e).__name__, e)
         if isinstance(f, ast.Attribute):
             recv = self.ev(f.value, loc)
+            if recv is dict and f.attr == 'fromkeys' and 1 <= len(args) <= 2 and not kw:
+                return dict.fromkeys(list(args[0]), *args[1:])
             if isinstance(recv, Obj) and f.attr in recv.__dict__.get('_methods', {}):
                 fn_ = recv.__dict__['_methods'][f.attr]
                 if not isinstance(fn_, ast.FunctionDef):
